@@ -45,6 +45,29 @@ def run(cx, chk):
             reboxes = [e for e in w.events_on if e[1] == "rebox"]
             drop_seen.setdefault(cfg, []).append((len(frees), len(reboxes), [e for e in p.events if e["ev"] == "loop"]))
     ntrun.report_findings(cx, chk, ("C03.",), extra)
+    # R7: the same typestate obligations when a lookup by a node's own key may MISS (K's Eq/Hash are user code and need not be
+    # consistent; a safe API must stay memory-safe): the code has to branch on the lookup's result before it unlinks / frees the node
+    chk.rule("C03.R7", "typestate also holds when own-key lookups may miss (inconsistent user Eq/Hash): the node is unlinked/freed only on the hit branch")
+    for cfg, F in cx.cfgs():
+        seen = {}
+        for f, p, w in ntrun.walk(cx, cfg, noeq=True):
+            misses = [e for e in p.events if e["ev"] == "call" and e.get("hm") and not e.get("present") and isinstance(e.get("keysrc"), tuple)
+                      and e["keysrc"][0] == "ref" and e["keysrc"][1][0] == "H" and e["keysrc"][1][2][:1] == ("key",)]
+            if not misses:
+                continue
+            r = seen.setdefault(f["q"], [0, 0])
+            r[0] += 1
+            for fd in w.findings:
+                if not fd["rule"].startswith(("C03.R1", "C04.R1")):
+                    continue
+                r[1] += 1
+                g = F.fns.get(fd["fn"]) or f
+                chk.violation("C03.R7", "%s|%s|%s" % (f["q"], g["q"], ntrun.norm(fd["msg"])[:120]),
+                              "if the lookup of an entry's own key misses (inconsistent Eq/Hash of K), %s (reached from %s)" % (fd["msg"], f["q"]),
+                              g["span"]["file"], fd["ln"], g["q"], ["root " + f["q"]], cfg)
+        for q, (n, bad) in seen.items():
+            if not bad:
+                chk.ob("C03.R7", "%s:%s" % (cfg, q), "typestate holds on %d own-key-miss paths" % n)
     for cfg, F in cx.cfgs():
         got = drop_seen.get(cfg)
         if not got:
